@@ -56,7 +56,56 @@ def term_src(t):
         return '_'
     if k == 'pair':
         return '(%s, %s)' % (term_src(t[1]), term_src(t[2]))
+    if k == 'cmp':
+        # value of a #[compound] struct (STRUCTS); named structs can only be written as match patterns
+        if STRUCTS[t[1]][0] == 'named':
+            return '%s { %s }' % (t[1], ', '.join(term_src(a) for a in t[2]))
+        return '%s(%s)' % (t[1], ', '.join(term_src(a) for a in t[2]))
+    if k == 'some':
+        return 'Some(%s)' % term_src(t[1])
+    if k == 'none':
+        return 'None'
     raise ValueError(t)
+
+
+# #[compound] structs available to templates: name -> (kind, field names)
+STRUCTS = {
+    'Leaf': ('unnamed', ['0']),
+    'Wrap': ('unnamed', ['0']),
+    'Pt': ('unnamed', ['0', '1']),
+    'Node': ('unnamed', ['0', '1']),       # (LTerm, Option<Leaf>)
+    'Named': ('named', ['a', 'b']),        # { a: LTerm, b: Leaf }
+    'Tree': ('unnamed', ['0', '1', '2']),  # (LTerm, Tree, Tree)
+}
+
+STRUCT_DEFS = '''#[compound]
+struct Leaf(LTerm);
+#[compound]
+struct Wrap(LTerm);
+#[compound]
+struct Pt(LTerm, LTerm);
+#[compound]
+struct Node(LTerm, Option<Leaf>);
+#[compound]
+struct Named { a: LTerm, b: Leaf }
+#[compound]
+struct Tree(LTerm, Tree, Tree);
+'''
+
+
+from terms import enc_list, enc_cmp, dec_cmp
+
+
+def uses_structs(x):
+    if isinstance(x, tuple):
+        if x and x[0] in ('cmp', 'some', 'none'):
+            return True
+        return any(uses_structs(y) for y in x)
+    if isinstance(x, list):
+        return any(uses_structs(y) for y in x)
+    if isinstance(x, str):
+        return ':' in x and x.split(':')[1].strip() in STRUCTS
+    return False
 
 
 def clause_src(gs):
@@ -346,9 +395,63 @@ def emit_crate(dirpath, templates):
     if os.path.exists(lock):
         import shutil
         shutil.copyfile(lock, os.path.join(dirpath, 'Cargo.lock'))
-    src = PRELUDE + ''.join(emit_fn(*t) for t in templates)
+    src = PRELUDE
+    if any(uses_structs(t[1]) for t in templates):
+        open(os.path.join(dirpath, 'src', 'cdefs.rs'), 'w').write(expand_struct_defs(dirpath))
+        src += '\npub mod cdefs;\npub use cdefs::*;\n'
+    src += ''.join(emit_fn(*t) for t in templates)
     open(os.path.join(dirpath, 'src', 'lib.rs'), 'w').write(src)
     return src
+
+
+def expand_struct_defs(dirpath):
+    """The #[compound] attribute generates a dozen impls per struct that all carry the span of the attribute,
+    so the MIR dump could not tell them apart.  The definitions are therefore expanded first by the REAL macro
+    (`rustc -Zunpretty=expanded` on a crate that contains only STRUCT_DEFS, rebuilt from /repo's macros on every
+    run) and the expansion becomes an ordinary source module of the template crate."""
+    import subprocess
+    d = os.path.join(dirpath, 'cdefs')
+    os.makedirs(os.path.join(d, 'src'), exist_ok=True)
+    os.makedirs(os.path.join(d, '.cargo'), exist_ok=True)
+    open(os.path.join(d, 'Cargo.toml'), 'w').write(
+        '[package]\nname = "cdefs"\nversion = "0.0.0"\nedition = "2018"\n\n[dependencies]\nproto-vulcan = { path = "/repo" }\n\n[workspace]\n')
+    open(os.path.join(d, '.cargo', 'config.toml'), 'w').write('[net]\noffline = true\n')
+    if os.path.exists('/repo/Cargo.lock'):
+        import shutil
+        shutil.copyfile('/repo/Cargo.lock', os.path.join(d, 'Cargo.lock'))
+    open(os.path.join(d, 'src', 'lib.rs'), 'w').write('#![allow(dead_code)]\nuse proto_vulcan::prelude::*;\n// @@CUT@@\n' + STRUCT_DEFS)
+    env = dict(os.environ, CARGO_NET_OFFLINE='true', CARGO_TARGET_DIR=os.path.join(os.path.dirname(dirpath), 'mirtarget-cdefs'))
+    p = subprocess.run(['cargo', '+nightly', 'rustc', '--offline', '--lib', '--', '-Zunpretty=expanded'], cwd=d, env=env,
+                       stdout=subprocess.PIPE, stderr=subprocess.PIPE, text=True)
+    if p.returncode != 0 or 'pub struct Leaf' not in p.stdout:
+        raise RuntimeError('expansion of the #[compound] definitions failed: ' + p.stderr[-2000:])
+    txt = p.stdout
+    txt = txt[txt.index('use proto_vulcan::prelude::*;'):]
+    # the vec![..] expansion uses compiler-internal functions: fold it back
+    pat = re.compile(r'::alloc::boxed::box_assume_init_into_vec_unsafe\(\s*::alloc::intrinsics::write_box_via_move\(\s*::alloc::boxed::Box::new_uninit\(\),\s*\[')
+    while True:
+        mm = pat.search(txt)
+        if not mm:
+            break
+        i = mm.end() - 1
+        depth, j = 0, i
+        while True:
+            c = txt[j]
+            if c in '([{':
+                depth += 1
+            elif c in ')]}':
+                depth -= 1
+                if depth == 0:
+                    break
+            j += 1
+        tail = re.match(r'\s*\)\s*\)', txt[j + 1:])
+        if not tail:
+            raise RuntimeError('unexpected vec! expansion shape')
+        txt = txt[:mm.start()] + 'vec!' + txt[i:j + 1] + txt[j + 1 + tail.end():]
+    # derive(Eq) bodies use unstable helpers; the marker impl is all that is needed
+    txt = re.sub(r'(?:#\[[a-z_]+(?:\([a-z]+\))?\]\s*)*fn assert_fields_are_eq\(&self\) \{[^}]*\}', '', txt)
+    txt = txt.replace('#[coverage(off)]', '')
+    return '// GENERATED: expansion of the #[compound] struct definitions by the real attribute macro\n#![allow(dead_code, non_snake_case, unused_imports)]\n' + txt
 
 
 # ==============================================================================================
@@ -366,6 +469,11 @@ def pattern_vars(t, acc):
     elif t[0] == 'pair':
         pattern_vars(t[1], acc)
         pattern_vars(t[2], acc)
+    elif t[0] == 'cmp':
+        for x in t[2]:
+            pattern_vars(x, acc)
+    elif t[0] == 'some':
+        pattern_vars(t[1], acc)
     return acc
 
 
@@ -438,6 +546,12 @@ class Ref(object):
             return self.fresh('any')
         if k == 'pair':
             return ('pair', self.term(t[1], env), self.term(t[2], env))
+        if k == 'cmp':
+            return enc_cmp(t[1], [self.term(a, env) for a in t[2]])
+        if k == 'some':
+            return enc_cmp('Some', [self.term(t[1], env)])
+        if k == 'none':
+            return enc_cmp('None', [])
         raise ValueError(t)
 
     def walk(self, t, s):
@@ -547,6 +661,7 @@ class Ref(object):
         if k == 'fresh':
             env2 = dict(env)
             for n in g[1]:
+                n = n.split(':')[0].strip()      # `x: Leaf` -- typed variables are ordinary variables for the reference
                 env2[n] = self.fresh(n)
             return self.run_conj(g[2], st, env2, depth)
         if k in ('conda', 'condu'):
@@ -1146,7 +1261,7 @@ def show_term(t, model=None):
         return '[%s]' % ', '.join(items) if cur[0] == 'nil' else '[%s | %s]' % (', '.join(items), show_term(cur, model))
     if k == 'pair':
         # LTerm's Display prints compound objects with their Debug representation
-        return '(%s, %s)' % (debug_term(t[1], model), debug_term(t[2], model))
+        return debug_term(t, model)
     if k == 'bool':
         return 'true' if t[1] else 'false'
     if k == 'str':
@@ -1155,22 +1270,30 @@ def show_term(t, model=None):
 
 
 def debug_term(t, model=None):
-    """`{:?}` of an LTerm (derive(Debug) shapes of LValue, hand-written Debug of LTerm)."""
+    """`{:?}` of an LTerm (hand-written Debug of LTerm and LValue; Debug of the compound objects)."""
     k = t[0]
     if k == 'num':
         x = t[1]
         if z3.is_expr(x):
             x = H.model_int(model, x) if model is not None else x
-        return 'Number(%s)' % x
+        return str(x)
     if k == 'bool':
-        return 'Bool(%s)' % ('true' if t[1] else 'false')
+        return 'true' if t[1] else 'false'
     if k == 'str':
-        return 'String("%s")' % t[1]
+        return '"%s"' % t[1]
     if k == 'nil':
         return 'Empty'
     if k == 'cons':
         return '(%s, %s)' % (debug_term(t[1], model), debug_term(t[2], model))
     if k == 'pair':
+        d = dec_cmp(t)
+        if d is not None:
+            name, fields = d
+            if name == 'None':
+                return 'None'
+            if name in STRUCTS and STRUCTS[name][0] == 'named':
+                return '%s { %s }' % (name, ', '.join('%s: %s' % (fn, debug_term(f, model)) for fn, f in zip(STRUCTS[name][1], fields)))
+            return '%s(%s)' % (name, ', '.join(debug_term(f, model) for f in fields))
         return '(%s, %s)' % (debug_term(t[1], model), debug_term(t[2], model))
     if k == 'var':
         return 'Var(VarID(0), "_")'
